@@ -50,6 +50,8 @@ def run(eng: Engine, ck: Check):
     ck.note(f'SessionInitializedEvent handlers: {sorted(hs)}')
 
     # ---- R-C16-ADVERT
+    from . import defs
+    defs.network_send_helpers(eng, ck, 'R-C16-ADVERT')
     from .c13 import unset_parent_clears
     unset_parent_clears(eng, ck, 'R-C16-ADVERT')       # the branch position sent after login is derived from self.parent
     def row(cls_name, msg, what, cond_ok, data_ok, floor=1):
@@ -189,21 +191,30 @@ def run(eng: Engine, ck: Check):
     ck.ob('R-C16-DESTROY', reg, reg.node, 'the client listens for connection state changes', ok, '', construct='destroy listener')
     resets = [(USERM, 'UserManager._on_state_changed', 'reset_users', True), (ROOMM, 'RoomManager._on_state_changed', 'reset_rooms', True),
               (USERM, 'UserTrackingManager._on_state_changed', 'stop', True), (DIST, 'DistributedNetwork._on_state_changed', '_reset_server_values', False)]
+    CLEARS = {'reset_users': ('UserManager', USERM, ['_users', '_privileged_users']), 'reset_rooms': ('RoomManager', ROOMM, ['_rooms']),
+              '_reset_server_values': ('DistributedNetwork', DIST, ['parent_min_speed', 'parent_speed_ratio', 'distributed_alive_interval', 'min_parents_in_cache',
+                                                                    'parent_inactivity_timeout'])}
+
+    def guards_ok(f, x, need_closed):
+        gs = [(unparse(e), pol) for e, pol, _ in eng.guards_at(f, x)]
+        return any('ServerConnection' in g for g, p in gs) and (not need_closed or any('CLOSED' in g and p for g, p in gs)) and \
+            not [g for g, p in gs if 'ServerConnection' not in g and 'PeerConnection' not in g and 'CLOSED' not in g and g != 'tasks']
     for rel, q, callee, need_closed in resets:
         f = eng.func(rel, q)
         xs = calls_on(f.node, callee)
-        ok = bool(xs)
-        for x in xs[:1]:
-            gs = [(unparse(e), pol) for e, pol, _ in eng.guards_at(f, x)]
-            ok = any('ServerConnection' in g for g, p in gs) and (not need_closed or any('CLOSED' in g and p for g, p in gs)) and \
-                not [g for g, p in gs if 'ServerConnection' not in g and 'PeerConnection' not in g and 'CLOSED' not in g and g != 'tasks']
+        ok = bool(xs) and guards_ok(f, xs[0], need_closed)
+        if not xs and callee in CLEARS:
+            # the clearing written in place: every field stored under the same guards
+            stores_ = {a_: [st_ for _, st_, _v in eng.stores_to_attr(a_, [f])] for a_ in CLEARS[callee][2]}
+            ok = all(len(v_) >= 1 and all(guards_ok(f, st_, need_closed) for st_ in v_) for v_ in stores_.values())
         registered = f in eng.res.event_handlers.get('ConnectionStateChangedEvent', [])
         ck.ob('R-C16-DESTROY', f, f.node, f'{q}: server-derived state is cleared ({callee}) when the server connection closes', ok and registered,
               'missing, conditional, or the handler is not registered', construct=f'{q} resets')
-    for q, attrs in (('UserManager.reset_users', ['_users', '_privileged_users']), ('RoomManager.reset_rooms', ['_rooms']),
-                     ('DistributedNetwork._reset_server_values', ['parent_min_speed', 'parent_speed_ratio', 'distributed_alive_interval',
-                                                                  'min_parents_in_cache', 'parent_inactivity_timeout'])):
-        f = eng.func(USERM if 'User' in q else ROOMM if 'Room' in q else DIST, q)
+    for callee, (cls_, rel_, attrs) in CLEARS.items():
+        q = f'{cls_}.{callee}'
+        f = eng.repo.find_func(rel_, q)
+        if f is None:
+            continue        # written in place: checked above
         written = {a for a in attrs if eng.stores_to_attr(a, [f])}
         ck.ob('R-C16-DESTROY', f, f.node, f'{q} clears {attrs}', written == set(attrs), f'cleared {sorted(written)}', construct=f'{q} clears fields')
 
